@@ -9,7 +9,7 @@ use blots_core::units::{self, ConversionType, Unit};
 use proptest::prelude::*;
 use serde::{Deserialize, Serialize};
 
-pub const RULE: &str = "exhaustive over get_all_units(): every identifier (exact resolution), upper/lower/title/swapped case variants of every identifier and every substitution of one character by another with the same lower-case form (K / KELVIN SIGN, OHM SIGN / omega, ...) (resolution iff unambiguous, computed independently over the table), every identifier against the unit's first identifier (identical behaviour, bitwise), every ordered pair of identifiers of the whole table (same category: bitwise the result of the units' first identifiers; different categories: must fail), every ordered same-category pair and every same-category triple x a magnitude set (identity, there-and-back, composition), every cross-category ordered pair (must fail), SI-prefixed names vs their base (power-of-ten ratio), random non-identifiers (must fail, also with the same non-identifier on both sides and through the built-in), every ordered pair of spellings that differ only by letter case converted one after the other in one thread (the second must behave as in a fresh thread), and a sample through the `convert` built-in; thorough adds all magnitudes 0, +-1e-12..+-1e12, 7.25 and random values. Non-trivial = a law instance involving two distinct units (or an identifier that is not the unit's first); distinct by (law, identifiers, magnitude).";
+pub const RULE: &str = "exhaustive over get_all_units(): every identifier (exact resolution), upper/lower/title/swapped case variants of every identifier and every substitution of one character by another with the same lower-case form (K / KELVIN SIGN, OHM SIGN / omega, ...) (resolution iff unambiguous, computed independently over the table), every identifier against the unit's first identifier (identical behaviour, bitwise), every ordered pair of identifiers of the whole table (same category: bitwise the result of the units' first identifiers; different categories: must fail), every ordered same-category pair and every same-category triple x a magnitude set (identity, there-and-back, composition), every cross-category ordered pair (must fail), SI-prefixed names vs their base (power-of-ten ratio), random non-identifiers (must fail, also with the same non-identifier on both sides and through the built-in), every ordered pair of spellings that differ only by letter case converted one after the other in one thread (the second must behave as in a fresh thread), every identifier (as source, as target, against itself and against the unit's first identifier; bound to a name and written as a string literal), every case variant and every first-identifier pair through the `convert` built-in, which must agree bitwise with units::convert; thorough adds all magnitudes 0, +-1e-12..+-1e12, 7.25 and random values. Non-trivial = a law instance involving two distinct units (or an identifier that is not the unit's first); distinct by (law, identifiers, magnitude).";
 pub const ASSUMPTIONS: &[&str] = &[
     "multi-step paths are held to a rounding bound: relative 16*eps for multiplicative (linear / reciprocal) units, absolute 32*eps*max(|values involved|, 500) for the affine temperature scales",
     "internally consistent laws cannot detect a mistyped coefficient; only the SI-prefix ratio law compares coefficients with an external table (harness prefix list)",
@@ -27,6 +27,8 @@ pub enum Case {
     Unknown { text: String },
     Prefix { prefixed: String, base: String, power: i32 },
     Builtin { a: String, b: String, v: F },
+    /// like Builtin, with the identifiers written as string literals in the program text
+    BuiltinText { a: String, b: String, v: F },
     /// every ordered pair of identifiers: (ia, ib) must behave like the first identifiers (fa, fb) of their units
     IdentPair { ia: String, ib: String, fa: String, fb: String, same_category: bool },
     /// two conversions one after the other in one thread, the second spelled like the first up to
@@ -328,6 +330,22 @@ impl Check for Units {
                     other => fail!(format!("prefix-ratio:{}", prefixed), "convert(1, {:?}, {:?}) = {:?}, expected 10^{}", prefixed, base, other, power),
                 }
             }
+            Case::BuiltinText { a, b, v } => {
+                ctx.label("convert-built-in-literal");
+                if a.contains('"') || b.contains('"') || a.contains('\n') || b.contains('\n') {
+                    return Ok(());
+                }
+                let sess = Sess::new();
+                sess.bind("v", &num(v.0));
+                let src = format!("convert(v, \"{}\", \"{}\")", a, b);
+                let got = sess.probe(&src);
+                let want = conv(v.0, a, b);
+                match (&got, &want) {
+                    (Ok(MV::Num(F(x))), Ok(y)) if x.to_bits() == y.to_bits() || (x.is_nan() && y.is_nan()) => Ok(()),
+                    (Err(_), Err(_)) => Ok(()),
+                    _ => fail!("built-in-differs:literal", "`{}` with v = {:e} gave {:?}, units::convert gave {:?}", src, v.0, got, want),
+                }
+            }
             Case::Builtin { a, b, v } => {
                 ctx.label("convert-built-in");
                 let sess = Sess::new();
@@ -442,8 +460,17 @@ pub fn run(ctx: &mut Ctx) {
             }
             vars.sort();
             vars.dedup();
+            let partner0 = all.iter().find(|w| w.category == u.category && !same_unit(w, u)).unwrap_or(u).identifiers[0].to_string();
             for v in vars {
+                // the built-in must treat every spelling exactly like units::convert does
+                cases.push(Case::Builtin { a: v.clone(), b: partner0.clone(), v: F(7.25) });
                 cases.push(Case::CaseVariant { variant: v });
+            }
+            // every listed identifier through the built-in: as source, as target, against itself,
+            // bound to a name and written as a literal
+            for (x, y) in [(id.to_string(), partner0.clone()), (partner0.clone(), id.to_string()), (id.to_string(), id.to_string()), (id.to_string(), first.clone())] {
+                cases.push(Case::Builtin { a: x.clone(), b: y.clone(), v: F(-7.25) });
+                cases.push(Case::BuiltinText { a: x, b: y, v: F(1.0) });
             }
         }
         let partner = all.iter().find(|w| w.category == u.category && !same_unit(w, u)).unwrap_or(u);
